@@ -71,7 +71,9 @@ func errName(err error) string {
 	return "other"
 }
 
-func isTimeoutErr(err error) bool { return err == mangos.ErrRecvTimeout || err == mangos.ErrSendTimeout }
+func isTimeoutErr(err error) bool {
+	return err == mangos.ErrRecvTimeout || err == mangos.ErrSendTimeout
+}
 
 func (w *world) wantTimeout() error {
 	if w.sp.Op == "send" {
@@ -113,6 +115,7 @@ func newWorld(c *mon.Case, sp spec) *world {
 		}
 	}
 	c.Cleanup(func() {
+		sp := w.sp
 		if w.outcome != "" {
 			c.Count("outcome_"+sp.Kind+"_"+w.outcome, 1)
 		}
@@ -450,6 +453,20 @@ func (w *world) prepareRecv() bool {
 		}
 		if !w.connectReal(pp, sp.Tr, nil) {
 			return false
+		}
+		if recvFam[sp.Proto] == "reply" && (sp.Kind == "dl-block" || sp.Kind == "multi") {
+			// The cooked replier stays silent but keeps *receiving*: a REP that never
+			// calls Recv absorbs only two requests (its pipe receiver holds one, the
+			// transport one), after which the subject's set-up Send of a further
+			// attempt would itself block.
+			peer := w.peer
+			go func() {
+				for {
+					if _, err := peer.Recv(); err != nil { // blocks; ends when the case closes the peer
+						return
+					}
+				}
+			}()
 		}
 	default:
 		panic("recv peer " + sp.Peer)
